@@ -371,8 +371,14 @@ func (gen *filterGen) Type(typ types.Type) string {
 		return gen.Struct(t)
 	case *types.TypeParam:
 		return gen.TypeParam(t)
+	case *types.Basic:
+		// byte and rune are aliases, they must match uint8 and int32.
+		if k := int(t.Kind()); k >= 0 && k < len(types.Typ) && types.Typ[k] != nil {
+			return types.Typ[k].String()
+		}
+		return t.String()
 	default:
-		// Anything else, like basics, just stringify normally.
+		// Anything else just stringify normally.
 		return t.String()
 	}
 }
